@@ -5,6 +5,7 @@
 From Coq Require Import List ZArith NArith Bool.
 Require Import Mixin.Base.Res Mixin.Gen.Consts Mixin.Model.GhostKey Mixin.Model.Base58
   Mixin.Model.Address Mixin.Model.HexText.
+Require Export Mixin.Model.HexLit.
 Import ListNotations.
 Open Scope Z_scope.
 
